@@ -1372,6 +1372,14 @@ namespace awkward {
       }
     }
 
+    if (contents_.empty()) {
+      // no field to take the length from: it is the sum of the merged lengths
+      minlength = length_;
+      for (auto array : headless) {
+        minlength += array.get()->length();
+      }
+    }
+
     ContentPtr next = std::make_shared<RecordArray>(Identities::none(),
                                                     parameters,
                                                     nextcontents,
